@@ -14,8 +14,9 @@ sum to one (completeness) — all `(j1_double, j2_double)` with `j1_double + j2_
 theorem cg_squares_normalised : ∀ a < 9, ∀ b < 9, a + b ≤ 8 → cgSquaresNormalised a b = true := by decide +kernel
 
 /-- **orthonormality of the Clebsch–Gordan rows** `Σ_{m1 m2} C(j m|m1 m2) C(j' m'|m1 m2) = δ δ` for all `j1_double + j2_double ≤ 8`:
-exact test `cgRowsOrthonormal` (each product is `±√(r r')`, written as `c·√f` with `f` square-free, rational coefficients added per
-radicand).  The grouping argument (`Σ_f c_f √f` vanishes if every `c_f` does) is the only step not formalised. -/
+exact test `cgRowsOrthonormal` (each product is `±√(r r')`, written as `c·√f` with `r r' = (t/q)²·f` by `sqfreeDecomp` — `sqfreeDecomp_spec`,
+every `N` —, rational coefficients added per radicand `f`).  The grouping argument (`Σ_f c_f √f` equals the target if every group
+coefficient does — valid for any decomposition, square-free or not) is the only step not formalised. -/
 theorem cg_rows_orthonormal_partial : ∀ a < 9, ∀ b < 9, a + b ≤ 8 → cgRowsOrthonormal a b = true := by decide +kernel
 
 /-- full statement (every pair of spins); open — tied and probed for `j1 + j2 ≤ 6` -/
@@ -25,8 +26,31 @@ def ClebschGordanOrthonormal.Statement : Prop := ∀ a b : ℕ, cgRowsOrthonorma
 Hilbert–Schmidt norm `S_double + 1`, `S_double ≤ 6` -/
 theorem tensorOp_normalised : ∀ S < 7, tensorOpNormalised S = true := by decide +kernel
 
-/-- the square-free decomposition used by the test is a decomposition: `N = t²·f` (checked for all `N < 2000`) -/
-theorem sqfreeDecomp_spec : ∀ N < 2000, (sqfreeDecomp N).1 * (sqfreeDecomp N).1 * (sqfreeDecomp N).2 = N := by decide +kernel
+/-- invariant of the trial division `sqfreeGo` (every fuel, every start): the returned `(t', f)` satisfies `t'²·f = t²·N` -/
+theorem sqfreeGo_spec : ∀ (fuel d N t : ℕ), (sqfreeGo fuel d N t).1 * (sqfreeGo fuel d N t).1 * (sqfreeGo fuel d N t).2 = t * t * N := by
+  intro fuel
+  induction fuel with
+  | zero => intro d N t; simp [sqfreeGo]
+  | succ fuel ih =>
+    intro d N t
+    simp only [sqfreeGo]
+    split_ifs with h1 h2
+    · rfl
+    · rw [ih]
+      have hd : d * d ∣ N := Nat.dvd_of_mod_eq_zero h2
+      calc t * d * (t * d) * (N / (d * d)) = t * t * (d * d * (N / (d * d))) := by ring
+        _ = t * t * N := by rw [Nat.mul_div_cancel' hd]
+    · exact ih _ _ _
+
+/-- **the decomposition used by the orthonormality test is a decomposition, for every `N`**: `N = t²·f`.  This is all the soundness of
+`surdSumIs` needs ("every group coefficient equals its target ⇒ the sum equals the target" holds for any way of writing the radicands
+as `t²·f`); that `f` is moreover square-free (it is, once the fuel `N + 64` suffices for the trial division) matters only for the
+completeness of the test and is not claimed. -/
+theorem sqfreeDecomp_spec (N : ℕ) : (sqfreeDecomp N).1 * (sqfreeDecomp N).1 * (sqfreeDecomp N).2 = N := by
+  unfold sqfreeDecomp
+  split_ifs with h
+  · simp [h]
+  · rw [sqfreeGo_spec]; ring
 
 /-- **`get_rational_orthogonal2_matrix(m, n)` is a rotation**: `[[x, y], [-y, x]]` with `x² + y² = 1`, for all integers with `(m,n) ≠ (0,0)` -/
 theorem rationalOrthogonal2_rotation (m n : ℤ) (h : m ≠ 0 ∨ n ≠ 0) :
